@@ -177,3 +177,9 @@ STREAM_SIBS = Ob("C01-S1", "R-SIB", "iterator-backed sources (fallible/infallibl
 ZOOMCOUNT_SIBS = Ob("C07-Z2", "R-SIB", "first-pass zoom counters identical (bigWig/bigBed); every processor calls its per-value function unconditionally; destroy() returns the summary as accumulated", PL.ob_zoom_count_siblings, floor=9)
 PROCESSOR_ARGS = Ob("C01-F5", "R-FLOW", "each processor hands its per-value function the value, the next value, the chromosome length / id and its own state (8 call sites)", SW.ob_processor_args, floor=8)
 PROCESS_DATA = Ob("C01-F6", "R-FLOW", "positional hand-over structs (InternalProcessData, NoZooms.., Zooms..) are built and destructured with the same meaning per position", WF.ob_process_data_positions, floor=6)
+
+from ..obs import mirobs as MO
+MIR_RESULTS = Ob("C14-E3", "R-ERR", "type-resolved (MIR): no Result produced by a call in non-test workspace code is dropped or collapsed without propagation", MO.ob_results_used, floor=1)
+MIR_COORD_ARITH = Ob("C13-V1", "R-BOUND", "type-resolved (MIR): overflow-checked <=32-bit Add/Mul/Shl on the write and merge paths are each bounded", MO.ob_coordinate_arithmetic, floor=5)
+MIR_HASH_ITER = Ob("C11-D4", "R-DISC", "type-resolved (MIR): no HashMap/HashSet iteration in library code except sorted-afterwards sites", MO.ob_hash_iteration, floor=1)
+MIR_INPUT_UNWRAPS = Ob("C13-P2", "R-PANIC", "type-resolved (MIR): no unwrap/expect of a parse or I/O Result in the code that consumes the data input (zero-count, positive control elsewhere)", MO.ob_input_unwraps, floor=1)
